@@ -503,10 +503,10 @@ impl Prop for C08 {
     const RESETS_PANIC_HOOK: bool = true;
 
     fn lanes(tier: Tier) -> Vec<Lane> {
-        vec![Lane::new("main", tier.pick(480, 16_000))
-            .cap(tier.pick(60, 900))
+        vec![Lane::new("main", tier.pick(400, 16_000))
+            .cap(tier.pick(240, 1500))
             .hang(None)
-            .floor(tier.pick(60, 2_000))]
+            .floor(tier.pick(40, 2_000))]
     }
 
     fn rule() -> &'static str {
